@@ -56,16 +56,62 @@ fn sites() -> Vec<Site> {
     v
 }
 
+/// Wrap every macro argument in `ev(k, ..)` so that the generated program can count evaluations.
+fn instrument(text: &str, opts: &str, hopts: &str) -> (String, Vec<usize>) {
+    let mut t = text.to_string();
+    let mut used = vec![];
+    let mut rep = |t: &mut String, from: &str, to: String, k: usize, used: &mut Vec<usize>| {
+        if t.contains(from) {
+            *t = t.replacen(from, &to, 1);
+            used.push(k);
+        }
+    };
+    // order matters: longer patterns first
+    rep(&mut t, hopts, format!("ev(0, {})", hopts), 0, &mut used);
+    rep(&mut t, opts, format!("ev(0, {})", opts), 0, &mut used);
+    rep(&mut t, "(name, help", "(ev(0, name), ev(1, help)".to_string(), 0, &mut used);
+    if t.contains("ev(1, help)") {
+        used.push(1);
+    }
+    rep(&mut t, ", lnames", ", ev(2, lnames)".to_string(), 2, &mut used);
+    rep(&mut t, ", c.buckets.clone()", ", ev(3, c.buckets.clone())".to_string(), 3, &mut used);
+    rep(&mut t, ", reg", ", ev(4, reg)".to_string(), 4, &mut used);
+    used.sort();
+    used.dedup();
+    (t, used)
+}
+
 fn generate() -> (String, usize, usize) {
     let sites = sites();
+    let opts_s = "Opts::new(name, help).namespace(\"ns\").subsystem(\"sub\").const_labels(smap(&c.consts))";
+    let hopts_s = "HistogramOpts::new(name, help).namespace(\"ns\").const_labels(smap(&c.consts)).buckets(c.buckets.clone())";
     let mut src = String::new();
     src.push_str("// GENERATED by harness/src/bin/c20.rs — do not edit.\n#![allow(unused_variables, clippy::all)]\n#[macro_use]\nextern crate prometheus;\ninclude!(\"/verif/harness/c20/support.rs\");\n\n");
     for (i, s) in sites.iter().enumerate() {
+        // the options expressions contain `c.buckets.clone()` / `name, help` themselves: instrument the macro call only
+        let (itext, used) = if s.text.contains(hopts_s) {
+            let t = s.text.replacen(hopts_s, "@@H@@", 1);
+            let (t2, mut u) = instrument(&t, opts_s, "@@none@@");
+            u.push(0);
+            u.sort();
+            u.dedup();
+            (t2.replacen("@@H@@", &format!("ev(0, {})", hopts_s), 1), u)
+        } else if s.text.contains(opts_s) {
+            let t = s.text.replacen(opts_s, "@@O@@", 1);
+            let (t2, mut u) = instrument(&t, "@@none@@", "@@none@@");
+            u.push(0);
+            u.sort();
+            u.dedup();
+            (t2.replacen("@@O@@", &format!("ev(0, {})", opts_s), 1), u)
+        } else {
+            instrument(&s.text, "@@none@@", "@@none@@")
+        };
         let _ = write!(
             src,
-            "fn site_{i}(c: &Case, regs: &Regs) -> SiteResult {{\n    let owned = format!(\"{{}}_s{i}\", c.name);\n    let name: &str = &owned;\n    let help: &str = c.help;\n    let lnames: &[&str] = &c.label_names;\n    let reg = regs.target(c.target);\n    let got = boxed({text});\n    let again = boxed({text});\n    let explicit: Box<dyn Probe> = Box::new({explicit});\n    judge({lit:?}, c, regs, got, again, explicit, {amount})\n}}\n\n",
+            "fn site_{i}(c: &Case, regs: &Regs) -> SiteResult {{\n    let owned = format!(\"{{}}_s{i}\", c.name);\n    let name: &str = &owned;\n    let help: &str = c.help;\n    let lnames: &[&str] = &c.label_names;\n    let reg = regs.target(c.target);\n    ev_reset();\n    let got = boxed({text});\n    let evs = ev_verdict(&{used:?}, ev_counts());\n    let again = boxed({text});\n    let explicit: Box<dyn Probe> = Box::new({explicit});\n    judge({lit:?}, c, regs, got, again, explicit, {amount}, evs)\n}}\n\n",
             i = i,
-            text = s.text,
+            text = itext,
+            used = used,
             explicit = s.explicit,
             lit = s.text,
             amount = 1000 + i
@@ -75,14 +121,14 @@ fn generate() -> (String, usize, usize) {
     let mut pure = vec![];
     for tc in ["", ","] {
         pure.push((format!("labels!{{{}}}", if tc.is_empty() { "" } else { "" }), 0usize, "labels".to_string()));
-        pure.push((format!("labels!{{c.consts[0].0 => c.consts[0].1{}}}", tc), 1, "labels".to_string()));
-        pure.push((format!("labels!{{c.consts[0].0 => c.consts[0].1, c.consts[1].0 => c.consts[1].1{}}}", tc), 2, "labels".to_string()));
-        pure.push((format!("opts!(name, help{})", tc), 100, "opts0".to_string()));
-        pure.push((format!("opts!(name, help, cmap(&c.consts){})", tc), 100, "opts1".to_string()));
-        pure.push((format!("opts!(name, help, cmap(&c.consts), cmap(&c.consts2){})", tc), 100, "opts2".to_string()));
-        pure.push((format!("histogram_opts!(name, help{})", tc), 100, "hopts0".to_string()));
-        pure.push((format!("histogram_opts!(name, help, c.buckets.clone(){})", tc), 100, "hopts1".to_string()));
-        pure.push((format!("histogram_opts!(name, help, c.buckets.clone(), smap(&c.consts){})", tc), 100, "hopts2".to_string()));
+        pure.push((format!("labels!{{ev(0, c.consts[0].0) => ev(1, c.consts[0].1){}}}", tc), 1, "labels".to_string()));
+        pure.push((format!("labels!{{ev(0, c.consts[0].0) => ev(1, c.consts[0].1), ev(2, c.consts[1].0) => ev(3, c.consts[1].1){}}}", tc), 2, "labels".to_string()));
+        pure.push((format!("opts!(ev(0, name), ev(1, help){})", tc), 100, "opts0".to_string()));
+        pure.push((format!("opts!(ev(0, name), ev(1, help), ev(2, cmap(&c.consts)){})", tc), 100, "opts1".to_string()));
+        pure.push((format!("opts!(ev(0, name), ev(1, help), ev(2, cmap(&c.consts)), ev(3, cmap(&c.consts2)){})", tc), 100, "opts2".to_string()));
+        pure.push((format!("histogram_opts!(ev(0, name), ev(1, help){})", tc), 100, "hopts0".to_string()));
+        pure.push((format!("histogram_opts!(ev(0, name), ev(1, help), ev(2, c.buckets.clone()){})", tc), 100, "hopts1".to_string()));
+        pure.push((format!("histogram_opts!(ev(0, name), ev(1, help), ev(2, c.buckets.clone()), ev(3, smap(&c.consts)){})", tc), 100, "hopts2".to_string()));
     }
     for (j, (text, arity, kind)) in pure.iter().enumerate() {
         let check = match kind.as_str() {
@@ -118,7 +164,7 @@ fn generate() -> (String, usize, usize) {
         };
         let _ = write!(
             src,
-            "fn pure_{j}(c: &Case) -> Option<SiteResult> {{\n    let owned = format!(\"{{}}_p{j}\", c.name);\n    let name: &str = &owned;\n    let help: &str = c.help;\n{check}    Some(SiteResult {{ site: {lit:?}, case: c.id, verdict: v }})\n}}\n\n",
+            "fn pure_{j}(c: &Case) -> Option<SiteResult> {{\n    let owned = format!(\"{{}}_p{j}\", c.name);\n    let name: &str = &owned;\n    let help: &str = c.help;\n    ev_reset();\n{check}    let n_args = {lit:?}.matches(\"ev(\").count();\n    let v = match ev_verdict(&(0..n_args).collect::<Vec<_>>(), ev_counts()) {{ Ok(()) => v, Err(e) => Err(e) }};\n    Some(SiteResult {{ site: {lit:?}, case: c.id, verdict: v }})\n}}\n\n",
             j = j,
             check = check,
             lit = text
@@ -165,7 +211,7 @@ fn main() {
         .env("CARGO_NET_OFFLINE", "true")
         .output()
         .expect("cargo");
-    rep.rule = format!("generated program: {} registering call sites (every arm of register_{{counter,int_counter,gauge,int_gauge,counter_vec,int_counter_vec,gauge_vec,int_gauge_vec,histogram,histogram_vec}}! and their _with_registry forms, with and without trailing comma) and {} call sites of labels!/opts!/histogram_opts!, each looped over 216 argument cases (label-name lists of 1-2, constant-label maps of 0-2 entries, an overriding second map, bucket lists default/[1,2]/linear, two help texts, target registry default / plain custom / custom with prefix and common label); per call: descriptor and buckets equal the explicit constructor's, the updated handle's sample shows up in exactly the named registry, a second identical invocation evaluates to Err. distinct = distinct (kind, descriptor, buckets) results", nsites, npure);
+    rep.rule = format!("generated program: {} registering call sites (every arm of register_{{counter,int_counter,gauge,int_gauge,counter_vec,int_counter_vec,gauge_vec,int_gauge_vec,histogram,histogram_vec}}! and their _with_registry forms, with and without trailing comma) and {} call sites of labels!/opts!/histogram_opts!, each looped over 216 argument cases (label-name lists of 1-2, constant-label maps of 0-2 entries, an overriding second map, bucket lists default/[1,2]/linear, two help texts, target registry default / plain custom / custom with prefix and common label); per call: descriptor and buckets equal the explicit constructor's, the updated handle's sample shows up in exactly the named registry, a second identical invocation evaluates to Err and leaves the first registration intact; every macro argument expression is evaluated exactly once. distinct = distinct (kind, descriptor, buckets) results", nsites, npure);
     rep.bounds = json!({"registering_call_sites": nsites, "pure_call_sites": npure, "cases": 216});
     if !out.status.success() {
         let err = String::from_utf8_lossy(&out.stderr).to_string();
